@@ -175,7 +175,7 @@ class C15(Prop):
             "NaN from the stage function); EVERY return of nonlinear_roots is judged.  even seeds, stand-alone: 1-4 solver calls on seeded smooth systems "
             "(separable quadratics, contraction fixed points, exponentials, double roots with singular Jacobian, systems without a root, inconsistent singular "
             "linear systems; n = 1..12, shapes (n,) and (n,m); with/without user Jacobian; entry points nonlinear_roots / hybrj / newtontrustregion; good, far "
-            "and singular starting points; float64 and longdouble; optional NaN or exception from F).  Non-trivial = at least one solver call returned; "
+            "singular and wrong-by-1e4..1e7 starting points; float64 and longdouble; optional NaN or exception from F).  Non-trivial = at least one solver call returned; "
             "distinct = distinct canonical scenario JSON")
     assumptions = ["success => ||F(x)||_2 <= 100 * tol * (n + ||x||_2), F recomputed with the mathematical function (not through the counted seam)",
                    "a raised exception or success=False is always acceptable", "stand-alone part is input sampling executed inside the simulator (labelled so)"]
@@ -209,11 +209,14 @@ class C15(Prop):
             if kind == "fixedpoint":
                 desc["A"] = [v * 0.6 for v in desc["A"]]
                 desc["a"] = [gen.rnd(r, -1, 1, 3) for _ in range(n)]
-            start = r.choice(["good", "good", "far", "zero", "singular"])
+            start = r.choice(["good", "good", "far", "zero", "singular", "huge"])
             if start == "good":
                 x0 = [(abs(a) ** 0.5 if kind in ("quad",) else a if kind == "double" else 0.1) + gen.rnd(r, -0.2, 0.2, 3) for a in desc["a"]]
             elif start == "far":
                 x0 = [gen.rnd(r, -50, 50, 2) for _ in range(n)]
+            elif start == "huge":
+                # wrong by orders of magnitude: every tolerance that scales with the iterate has to follow it down to the root
+                x0 = [gen.rnd(r, 0.3, 1.0, 3) * r.choice([-1, 1]) * 10.0 ** r.choice([4, 5, 7]) for _ in range(n)]
             elif start == "zero":
                 x0 = [0.0] * n
             else:
